@@ -25,10 +25,13 @@ EXPLANATION = ('Page search (IndexTable::find_entry and what it dispatches to): 
                'is max(c, address bits) with c >= 32, hence never smaller than the scalar shift and never leaving key bits above the compared 32; '
                '(zero pattern) a zero target goes to the scalar routine with unchanged arguments and no vector operation is reachable for it; '
                '(mask) the tested value is the byte mask shifted right by bits-per-lane * skip, the position is group + skip + trailing_zeros / '
-               'bits-per-lane, and every path from a non-zero mask returns exactly (entry at position, position) without re-entering the loop; '
-               '(loop) the group index starts at the start position rounded down to the lane count, skip is the remainder, each round adds the '
-               'lane count and clears skip on every path back to the loop head, the loop runs while a whole group fits into the page, page '
-               'slots * 8 is the byte length of the page type; (scalar) the reference loop ranges over start..slots, returns (entry, index) exactly '
+               'bits-per-lane; (re-check, F67) after a non-zero mask the entry at the position is read from the page again - the page may be a live '
+               'mapping - and compared with the target once more: on the equal edge exactly (that entry, position) is returned and the loop is '
+               'left, on the unequal edge the search resumes at position + 1 and nothing else can happen; '
+               '(loop) the group index starts at the start position rounded down to the lane count, skip is the remainder; inside the loop the pair '
+               'is either stepped (group += lanes, skip = 0: every path from a zero mask) or set to the slot behind a failed candidate (group = '
+               'floor((position + 1) / lanes) * lanes, skip = the remainder: every path from a failed re-check); the loop runs while a whole group '
+               'fits into the page, page slots * 8 is the byte length of the page type; (scalar) the reference loop ranges over start..slots, returns (entry, index) exactly '
                'under "partial key equal and entry not empty", and answers the empty entry otherwise; both routines are reached only through the '
                'dispatching wrapper or the zero-pattern fallback.')
 ASSUMPTIONS = ['data movement of the SSE2 intrinsics as tabulated in rules/vecsem.py (Intel SDM); `psrlq` with a count above 63 yields zero while the scalar `>>` '
